@@ -141,6 +141,8 @@ Inductive sop :=
 | Garbage (k : N)
 | Req (k v : N)
 | Flood (k : N)            (* client k pipelines requests and never reads: its session blocks in a reply write *)
+| Park (k : N)             (* client k sends a request whose application handler does not return until Release *)
+| Release                  (* the parked handlers return: the outstanding transactions complete *)
 | SetDecode
 | Stop
 | DropHandle.
@@ -153,6 +155,7 @@ Definition expand (o : sop) : list event :=
   | Req k v => [Request k v]
   | Flood _ => []          (* nothing the tracker or the accept loop sees: the session is still a running session
                               (SessionTask races every reply write against its command channel) *)
+  | Park _ | Release => [] (* a session inside a transaction is still a running session; commands queue up for it *)
   | SetDecode => [Command]
   | Stop => [Shutdown]
   | DropHandle => [HandleDropped]
